@@ -185,8 +185,10 @@ def run(ck):
     wr = [n for n in S.io_send.calls() if name_is(n.get("callee"), ("QIODevice::write", "QIODevice::putChar"))]
     ck.ob("C07-O3", sitestr(S.io_send), len(wr) == 1, "a record is one write (never split across a rotation)" if len(wr) == 1 else "a record is written in %d pieces" % len(wr), key="IODeviceSink::send|split-record")
     ck.rule("C07-O6", "a size of the active file read before a rotation is not used after it (the daily check may rotate before the size check runs)")
-    from rules.rfs import stale_size
+    from rules.rfs import stale_size, size_not_narrowed
     stale_size(ck, S, "C07-O6")
+    ck.rule("C07-O7", "the 64-bit size of the active file is never converted to a narrower integer type")
+    size_not_narrowed(ck, S, "C07-O7")
 
 
 def counter_protocol(ck, S, fld):
